@@ -135,7 +135,7 @@ def push_task(side):
         for c in SM.COLS:
             parts.append(('frame.' + c, z3.ForAll([q], z3.Implies(q != r, z3.Select(w1['T.' + c], q) == z3.Select(w0['T.' + c], q)))))
         parts.append(('frame.live', z3.ForAll([q], z3.Implies(q != r, z3.Select(w1['T.live'], q) == z3.And(z3.Select(w0['T.live'], q), z3.Not(R_(q)))))))
-        for nm, part in SM.invariant(w1, named=True, focus=[(newk, ins[0]['raw'])]):
+        for nm, part in SM.invariant(w1, named=True, focus=[(newk, ins[0]['raw'])], pre=st.ghost.get('inv_arrays')):
             parts.append(('inv.' + nm, part))
         for nm, g in parts:
             out.append(discharge('%s.%s' % (base, nm), 'refine', pc, g, function=fn, path=p.decisions))
